@@ -129,9 +129,13 @@ type Exec struct {
 	// thread is blocked (0 = preemption bounding, 1 = delay bounding); SelectCost the
 	// cost of a non-default ready select case.
 	BlockSwitchCost int8
-	SelectCost      int8
-	envUsed         int
-	EnvFired        int
+	// ReleasePoints makes release operations (Unlock, RUnlock, WaitGroup.Done) scheduling points as well: the code that
+	// follows a release up to the thread's next visible operation can then be interleaved with other threads (needed to
+	// see what an unsynchronised access after the release does; more schedules).
+	ReleasePoints bool
+	SelectCost    int8
+	envUsed       int
+	EnvFired      int
 
 	// state cache hook; returns true if the state has been seen (prune)
 	Visit func(e *Exec, key uint64, cost int) bool
@@ -170,6 +174,7 @@ type Config struct {
 	Visit                       func(e *Exec, key uint64, cost int) bool
 	Trace                       bool
 	BlockSwitchCost, SelectCost int8
+	ReleasePoints               bool
 }
 
 // Run executes main as thread 0 under the controlled scheduler.
@@ -189,6 +194,7 @@ func Run(cfg Config, main func()) *Exec {
 		Data:            map[string]any{},
 		TraceOn:         cfg.Trace,
 		BlockSwitchCost: cfg.BlockSwitchCost,
+		ReleasePoints:   cfg.ReleasePoints,
 		SelectCost:      cfg.SelectCost,
 	}
 	if e.HorizonN == 0 {
@@ -529,6 +535,13 @@ func Choose(n int, cost int) int {
 	}
 	e.cur.hash = mix(e.cur.hash, uint64(c)+0x5151)
 	return c
+}
+
+// Released is called by the shims right after a release operation; a scheduling point if the execution asks for it.
+func Released(kind string, obj int) {
+	if e := E; e != nil && e.ReleasePoints && !e.aborting {
+		Point(kind, obj, nil)
+	}
 }
 
 // Yield is a pure scheduling point.
